@@ -1604,14 +1604,14 @@ func freshObject(f *ssa.Function, v ssa.Value, depth int) bool {
 }
 
 // ---------------------------------------------------------------------------------------------
-// D1 what was decoded is delivered: no filter on decoded content
+// D2 what was decoded is delivered: no filter on decoded content
 //
 // "exactly the units the stream carries" / "every PES and table exactly once": once a unit has been decoded without
 // error, whether it is delivered must not depend on what it contains. In parseData no branch condition reads a field of
 // the decoded PES or PSI structure; in (*PSIData).toData the only section fields a branch condition may read are the
 // nil-ness of Syntax / Syntax.Data (nothing was decoded) and Header.TableID (which DemuxerData field receives the table).
 func (a *A) NoContentFilter() {
-	const rule = "D1"
+	const rule = "D2"
 	ownerField := func(fa *ssa.FieldAddr) (string, string) {
 		pt, ok := fa.X.Type().Underlying().(*types.Pointer)
 		if !ok {
